@@ -100,6 +100,20 @@ CLAIMED["C13"] = (
     "thread-id input; NaN normalised, integers little-endian at the right width, seeded builder feeds only the seed, sub_hash copies the outer state. Not decided: collision resistance.",
     "Trusted: rustc nightly MIR; mem::Discriminant representation; BTree iteration order.")
 
+CLAIMED["C14"] = (
+    "table extraction from the MIR of every STABLE_TYPE_ID constant (parameters folded, combine-chain shape, base names), purity of the const fns, word-level def-use links of the QueryID packing",
+    "Decides: every type/const parameter of every Identifiable impl (145, incl. derives) reaches the id through an unbroken, non-symmetric combine chain; base names "
+    "(with chain length) are pairwise distinct; ids are pure const fns; from_raw_parts is unsafe and used at 2 audited sites; QueryID packs (type id, key hash) and "
+    "unpacks high/low consistently; registry and value store are keyed by <Q>::STABLE_TYPE_ID. Not decided: collision freedom of the 128-bit values.",
+    "Trusted: rustc nightly MIR of associated consts; concat!/module_path! expansion by rustc.")
+CLAIMED["C15"] = (
+    "dominance / guard-lifetime rules on the double-checked insertion, who-may-remove rule on typed shards, retain-predicate shape, wire-shape equivalence of Interned, control-dependence of the source/reference decision",
+    "Decides: canonical allocations are created and published only under the hash-selected shard's write lock, in the Vacant arm or after a failed upgrade; lookups return "
+    "only upgraded handles; only vacuum's retain(weak.upgrade().is_some()) removes entries; shards are keyed by T's id and downcast to T's shard; Interned encode/decode "
+    "languages agree, the full value is written exactly on first insertion of (type id, hash) into the session set, decode interns sources and resolves references via "
+    "the plugin's interner. Not decided: canonicity at every instant under all interleavings.",
+    "Trusted: rustc nightly MIR + MaybeInitializedPlaces; parking_lot guards; Weak::upgrade semantics.")
+
 NOT_YET = "check under construction in this round (DESIGN.md section 5 lists its clauses); not claimed until its rules are armed and self-tested"
 
 checks = []
